@@ -242,6 +242,18 @@ def one_case(r, i):
                 _parsers[logic] = L.Parser()
             return L.modelcheck(K, f, parser=_parsers[logic])
         return L.modelcheck(K, f)
+    fresh_relation(K, call, {'K': nk2.to_json(), 'formula': t,
+                             'logic': logic, 'style': style}, i % 3)
+    if nontrivial:
+        LOG.mark_nontrivial((nk2.key(), tuple(map(repr, nk2.states)), t,
+                             logic))
+    if i % 701 == 0:
+        LOG.sample({'K': nk2.to_json(), 'formula': show(t)[:300],
+                    'logic': logic, 'style': style})
+
+
+def fresh_relation(K, call, case, how):
+    """call(); mutate the result; call() again: same answer, new object."""
     try:
         r1 = call()
     except Exception:
@@ -250,7 +262,6 @@ def one_case(r, i):
         return
     first = set(r1)
     # the caller owns the result: mutate it in every way
-    how = i % 3
     if how == 0:
         r1.clear()
     elif how == 1:
@@ -265,21 +276,13 @@ def one_case(r, i):
         return
     LOG.hit('c19.fresh')
     if not isinstance(r2, set) or r2 != first or r2 is r1:
-        LOG.violation('c19.fresh', PROP,
-                      {'K': nk2.to_json(), 'formula': t, 'logic': logic,
-                       'style': style, 'mutation': how},
+        LOG.violation('c19.fresh', PROP, dict(case, mutation=how),
                       sorted(map(repr, r2)) if isinstance(r2, set)
                       else repr(r2),
                       sorted(map(repr, first)),
                       note='repeated call differs after mutating the first '
                            'result' if r2 is not r1 else
                            'the same set object was returned twice')
-    if nontrivial:
-        LOG.mark_nontrivial((nk2.key(), tuple(map(repr, nk2.states)), t,
-                             logic))
-    if i % 701 == 0:
-        LOG.sample({'K': nk2.to_json(), 'formula': show(t)[:300],
-                    'logic': logic, 'style': style})
 
 
 def collision_cases():
@@ -316,10 +319,9 @@ def replay(ctx, rep):
     attach()
     c = rep['case']
     from ..mcwork import to_tuple, nk_from_json
-    nk = nk_from_json(c['K'])
-    K = mcwork.kripke_of(nk)
+    nk = nk_from_json(c['K'], real_names=True)
+    K = make_kripke(nk.n, nk.succ, nk.labels, list(nk.states))
     L = lang(c['logic'])
     f = build(L, to_tuple(c['formula']))
-    r1 = L.modelcheck(K, f)
-    r1.clear()
-    L.modelcheck(K, f)
+    for how in (0, 1, 2):
+        fresh_relation(K, lambda: L.modelcheck(K, f), c, how)
